@@ -4,7 +4,7 @@ repository's own tests still pass, run the property's QUICK check against the
 worktree and require a VIOLATION. Usage: run.py [name-substring ...] [--keep]"""
 import os, subprocess, sys, json, time, shutil
 sys.path.insert(0, os.path.dirname(__file__))
-from mutants import M
+from mutants import M, THOROUGH_ONLY
 VERIF = os.environ.get("SELFTEST_VERIF", os.path.dirname(os.path.dirname(os.path.abspath(__file__))))
 WT = "/tmp/asemon-selftest-wt"
 TGT = "/tmp/asemon-selftest-target"
@@ -35,7 +35,10 @@ try:
             if not ok:
                 results.append((mu["name"], mu["prop"], "REPO-TESTS-FAIL-OR-NO-BUILD: " + r.stdout.strip()[:200], 0)); print(results[-1], flush=True); continue
         env = dict(os.environ, ASEMON_REPO=WT, ASEMON_TARGET_DIR=TGT + "/harness", ASEMON_VERIF_DIR=VERIF)
-        r = sh(f"cd {VERIF} && ./check {mu['prop']} --tier quick", env=env)
+        tier = "thorough" if mu["name"] in THOROUGH_ONLY else "quick"
+        if tier == "thorough":
+            env["ASEMON_FUZZ_SECS"] = "20"
+        r = sh(f"cd {VERIF} && ./check {mu['prop']} --tier {tier}", env=env)
         dt = time.time() - t0
         viol = [l for l in r.stdout.splitlines() if l.startswith("VIOLATION")]
         sigs = [l.strip() for l in r.stdout.splitlines() if l.strip().startswith("signature:")]
